@@ -64,7 +64,7 @@ fn dot(t: &mut Toks, cx: &mut Ctx) -> String {
                     // (g_(n+1) + g_(maxChunk + w + 1)) sum|a_i b_i|, maxChunk = n/w + n%w the longest chunk
                     let w = wobs.max(1); let uu = f64::EPSILON / 2.0;
                     let k = (n + 1) + (n / w + n % w + w + 1);
-                    cx.check((x - seq).abs() <= 1.01 * (k as f64) * uu * scale, "differs from the sequential dot product by more than the reassociation bound of theorem dotThreaded_vs_dot");
+                    cx.check(!(scale.is_finite() && x.is_finite() && seq.is_finite()) || (x - seq).abs() <= 1.01 * (k as f64) * uu * scale, "differs from the sequential dot product by more than the reassociation bound of theorem dotThreaded_vs_dot");
                 }
             }
             f64_hex(*x)
